@@ -28,7 +28,9 @@ var (
 
 	oddAtoms = []string{"/", ":", "[", "]", "=", ",", " ", "", "\x00",
 		"a/b", "a:b", "a b", "a,b", "a=b", "a\x00b", "a[b]", "[a]", "a/", "/a", "ab", "a*", "*a", "**", "a/*", "*/b", "a/b/a", "a//b", "b/a"}
-	xformKinds = []string{"copy", "copy", "merge", "merge", "split", "split", "extend", "truncate", "glob", "subst"}
+	xformKinds = []string{"copy", "copy", "merge", "merge", "merge", "split", "split", "split", "extend", "truncate", "glob", "subst"}
+	// '/' is the separator of the textual path form and the realistic one inside key values; it is drawn more often.
+	drawnJoiners = append([]string{"/", "/", "/"}, Joiners...)
 )
 
 // cfg is the per-scenario level.
@@ -60,7 +62,7 @@ func (c cfg) atom(t *rapid.T, alpha []string, label string) string {
 		}
 		if one(t, n, label+"-odd") {
 			if rapid.Bool().Draw(t, "composed") {
-				return rapid.SampledFrom(plainAlpha).Draw(t, "x") + rapid.SampledFrom(Joiners).Draw(t, "joiner") + rapid.SampledFrom(plainAlpha).Draw(t, "y")
+				return rapid.SampledFrom(plainAlpha).Draw(t, "x") + rapid.SampledFrom(drawnJoiners).Draw(t, "joiner") + rapid.SampledFrom(plainAlpha).Draw(t, "y")
 			}
 			return rapid.SampledFrom(oddAtoms).Draw(t, "odd")
 		}
@@ -111,7 +113,7 @@ func (c cfg) xform(t *rapid.T, alpha []string) XForm {
 	switch x.Kind {
 	case "merge":
 		x.At = rapid.IntRange(0, 9).Draw(t, "at")
-		x.Sep = rapid.SampledFrom(Joiners).Draw(t, "sep")
+		x.Sep = rapid.SampledFrom(drawnJoiners).Draw(t, "sep")
 	case "split", "truncate", "glob":
 		x.At = rapid.IntRange(0, 9).Draw(t, "at")
 	case "extend":
@@ -331,6 +333,32 @@ func indexJoiner(s, jn string) int {
 	return -1
 }
 
+// probe: one single-entry notification for each of (up to 6 of) the paths of a
+// list of the scenario, carrying exactly that path - the sharpest question the
+// filter can be asked about a registration and about its twins.
+func (c cfg) probe(t *rapid.T) *DSpec {
+	d := &DSpec{Kind: "probe", From: rapid.SampledFrom([]int{0, 0, 0, 1, 1, 2, 3, 5}).Draw(t, "from"),
+		J: rapid.IntRange(0, 99).Draw(t, "j"), Cut: rapid.IntRange(0, 6).Draw(t, "cut")}
+	if one(t, 3, "shaped") {
+		d.Shape = rapid.Uint32().Draw(t, "shape")
+	}
+	d.Legacy = one(t, 8, "delete") // probes: Legacy selects delete entries
+	return d
+}
+
+// probePaths picks the paths a probe op asks about.
+func probePaths(lists []*SubList, d *DSpec) [][]string {
+	if len(lists) == 0 {
+		return nil
+	}
+	qs := refQueries(lists[len(lists)-1-d.From%len(lists)])
+	var out [][]string
+	for i := 0; i < len(qs) && i < 6; i++ {
+		out = append(out, qs[(d.J+i)%len(qs)])
+	}
+	return out
+}
+
 // random part ------------------------------------------------------------------------
 
 type rawOp struct {
@@ -339,7 +367,11 @@ type rawOp struct {
 }
 
 func (c cfg) rawOp(t *rapid.T) rawOp {
-	kind := rapid.SampledFrom([]string{"add", "add", "add", "sublist", "remove", "remove", "update", "notify", "notify", "notify"}).Draw(t, "kind")
+	kinds := []string{"add", "add", "add", "sublist", "remove", "remove", "update", "notify", "notify", "notify"}
+	if c.level > 0 {
+		kinds = append(kinds, "probe")
+	}
+	kind := rapid.SampledFrom(kinds).Draw(t, "kind")
 	op := Op{Kind: kind}
 	var d *DSpec
 	clients := 3
@@ -368,6 +400,8 @@ func (c cfg) rawOp(t *rapid.T) rawOp {
 		op.Spare = rapid.IntRange(0, 3).Draw(t, "spare")
 		op.Notif = c.notif(t, 3)
 		d = c.dspec(t, updateAlpha, 2)
+	case "probe":
+		d = c.probe(t)
 	}
 	return rawOp{op, d}
 }
@@ -397,6 +431,17 @@ func resolveSeq(raw []rawOp) *Scenario {
 			if d != nil && len(pool) > 0 {
 				op.Path = d.X.apply(pool[len(pool)-1-d.From%len(pool)])
 			}
+		case "probe":
+			for _, q := range probePaths(lists, d) {
+				cut := d.Cut % (len(q) + 1)
+				g := structure(q[cut:], d.Shape, false)
+				n := &Notif{Updates: []GPath{g}}
+				if d.Legacy {
+					n = &Notif{Deletes: []GPath{g}}
+				}
+				sc.Ops = append(sc.Ops, Op{Kind: "notify", Prefix: clonePath(q[:cut]), Notif: n})
+			}
+			continue
 		case "notify":
 			if d != nil && len(pool) > 0 {
 				full := d.X.apply(pool[len(pool)-1-d.From%len(pool)])
@@ -435,7 +480,11 @@ type rawSrvOp struct {
 }
 
 func (c cfg) rawSrvOp(t *rapid.T) rawSrvOp {
-	kind := rapid.SampledFrom([]string{"sub", "sub", "end", "notify", "notify", "notify"}).Draw(t, "kind")
+	kinds := []string{"sub", "sub", "end", "notify", "notify", "notify"}
+	if c.level > 0 {
+		kinds = append(kinds, "probe")
+	}
+	kind := rapid.SampledFrom(kinds).Draw(t, "kind")
 	op := SrvOp{Kind: kind}
 	var d *DSpec
 	clients := 3
@@ -465,6 +514,9 @@ func (c cfg) rawSrvOp(t *rapid.T) rawSrvOp {
 		op.NPrefix.Elems, op.NPrefix.Legacy = pe.Elems, pe.Legacy
 		op.Notif = c.notif(t, 3)
 		d = c.dspec(t, updateAlpha, 2)
+	case "probe":
+		op.NPrefix = &GPath{Target: rapid.SampledFrom([]string{"a", "a", "b"}).Draw(t, "target")}
+		d = c.probe(t)
 	}
 	return rawSrvOp{op, d}
 }
@@ -485,6 +537,30 @@ func resolveSrv(raw []rawSrvOp) *SrvScenario {
 			}
 			lists = append(lists, op.List)
 			pool = append(pool, refQueries(op.List)...)
+		case "probe":
+			for _, q := range probePaths(lists, d) {
+				if len(q) == 0 {
+					continue
+				}
+				target := q[0]
+				if !srvTargetSet[target] {
+					target = op.NPrefix.Target // "*": the drawn one
+				}
+				rest := q[1:]
+				cut := d.Cut % (len(rest) + 1)
+				pe := structure(rest[:cut], d.Shape>>16, false)
+				g := structure(rest[cut:], d.Shape, false)
+				n := &Notif{Updates: []GPath{g}}
+				if d.Legacy {
+					n = &Notif{Deletes: []GPath{g}}
+				}
+				np := &GPath{Target: target, Elems: pe.Elems}
+				if isTargetDeleteShape(n, np) {
+					n = &Notif{Updates: []GPath{g}}
+				}
+				sc.Ops = append(sc.Ops, SrvOp{Kind: "notify", NPrefix: np, Notif: n})
+			}
+			continue
 		case "notify":
 			if d != nil && len(pool) > 0 {
 				base := pool[len(pool)-1-d.From%len(pool)]
